@@ -461,7 +461,10 @@ fn ledger_mirror(c: &Chain, cx: &mut Ctx, label: &str, res: &Applied, before: &S
             if cb.is_empty() { continue; }
             let early = b.has_early_terminations || a.has_early_terminations || b.n_early_pending + a.n_early_pending > 0;
             let terminated_deals = all.iter().any(|t| t.from == mid && t.to == STORAGE_MARKET_ACTOR_ADDR);
-            if cb.len() == 1 && cb[0].exit_code.is_success() && !early && !terminated_deals && b.cron_active {
+            // sectors that left the pledge ledger while faulty were terminated early (fault time-out) and
+            // processed inside the same callback: not an on-time expiration, not covered by the ledger model
+            let early_inline = b.n_faulty > 0 && b.pledges.keys().any(|k| !a.pledges.contains_key(k));
+            if cb.len() == 1 && cb[0].exit_code.is_success() && !early && !early_inline && !terminated_deals && b.cron_active {
                 let exp_pre: Vec<u64> = b.precommits.keys().filter(|k| !a.precommits.contains_key(k)).cloned().collect();
                 let exp_sec: Vec<u64> = b.pledges.keys().filter(|k| !a.pledges.contains_key(k)).cloned().collect();
                 let dep_burn: TokenAmount = exp_pre.iter().map(|k| b.precommits[k].clone()).sum();
@@ -553,6 +556,75 @@ fn advance(c: &mut Chain, cx: &mut Ctx, target: i64, dense: bool) {
 fn fil(n: i64) -> TokenAmount { TokenAmount::from_whole(n) }
 
 const LONG_FAULT_SEQ: u64 = 1_000_000;
+
+/// Operations beyond the basic sector life cycle: storage deals (publish, pre-commit with data,
+/// activation through prove-commit), non-interactive prove-commit, replica updates, and funding a
+/// miner to exactly its fee debt (boundary of the "unlocked funds cover debt and pledge" checks).
+#[allow(clippy::too_many_arguments)]
+fn extra_op(c: &mut Chain, cx: &mut Ctx, r: &mut Rng, mi: usize, k: u64, view: &MinerView,
+            deals: &mut Vec<(u64, usize, i64, Option<u64>, bool)>, deal_tag: &mut u64,
+            pending: &mut [Vec<(u64, i64)>], proven_any: &mut bool) {
+    let epoch = c.epoch();
+    if k < 106 {
+        // publish a deal
+        *deal_tag += 1;
+        let tag = cx.seq * 1000 + *deal_tag;
+        let start = epoch + 160 + r.range(0, 400);
+        let end = start + 180 * 2880 + r.range(0, 50) * 2880;
+        let client = if r.chance(1, 2) { 3 } else { 4 };
+        let mut id = None;
+        let res = exec(c, cx, format!("publish_deal miner={} client={} start={} end={}", mi, client, start, end), false, false, |c| { let (a, b) = c.publish_deal(mi, client, tag, start, end); id = b; a });
+        if res.ok() { if let Some(d) = id { deals.push((d, mi, start, None, false)); } }
+    } else if k < 110 {
+        // pre-commit a sector holding a published, unused deal of this miner
+        if let Some(pos) = deals.iter().position(|d| d.1 == mi && d.3.is_none() && d.2 > epoch + 155) {
+            let d = deals[pos].0;
+            let mut sn = 0;
+            let res = exec(c, cx, format!("precommit miner={} n=1 deals=[{}]", mi, d), false, false, |c| { let (a, b) = c.precommit_with_deals(mi, &[d], 30 * 2880); sn = b; a });
+            if res.ok() { deals[pos].3 = Some(sn); }
+        }
+    } else if k < 114 {
+        // prove-commit a pre-committed sector with its deal
+        if let Some(pos) = deals.iter().position(|d| d.1 == mi && d.3.is_some() && !d.4) {
+            let (d, sn) = (deals[pos].0, deals[pos].3.unwrap());
+            let res = exec(c, cx, format!("prove_commit miner={} sectors=[{}] deals=[{}]", mi, sn, d), false, false, |c| c.prove_commit_with_deals(mi, sn, &[d]));
+            if res.ok() { deals[pos].4 = true; *proven_any = true; }
+        }
+    } else if k < 117 {
+        let n = r.range(1, 3) as usize;
+        let dl = r.below(48);
+        let res = exec(c, cx, format!("prove_commit_ni miner={} n={} deadline={}", mi, n, dl), false, false, |c| c.prove_commit_ni(mi, n, dl, 0).0);
+        if res.ok() { *proven_any = true; }
+    } else if k < 120 {
+        // replica update of a live, non-faulty sector with an unused published deal
+        if let Some(pos) = deals.iter().position(|d| d.1 == mi && d.3.is_none() && d.2 > epoch) {
+            let mut ups = vec![];
+            for p in view.parts.iter() {
+                for sn in p.2.iter() {
+                    if !p.3.contains(sn) && !p.5.contains(sn) && ups.len() < 2 && !deals.iter().any(|d| d.3 == Some(*sn)) {
+                        ups.push((*sn, p.0, p.1, if ups.is_empty() { vec![deals[pos].0] } else { vec![] }));
+                    }
+                }
+            }
+            if !ups.is_empty() {
+                let first = ups[0].0;
+                let res = exec(c, cx, format!("replica_update miner={} updates={:?}", mi, ups), false, false, |c| c.replica_update(mi, ups.clone()));
+                if res.ok() { deals[pos].3 = Some(first); deals[pos].4 = true; }
+            }
+        }
+    } else {
+        // fund the miner so that its unlocked balance equals its fee debt (+ a little)
+        if view.debt.is_positive() {
+            let unlocked = &view.balance - &view.pcd - &view.lf - &view.ip;
+            let want = &view.debt + TokenAmount::from_atto(r.range(0, 3));
+            if want > unlocked {
+                let v = &want - &unlocked;
+                exec(c, cx, format!("fund miner={} value={}", mi, v.atto()), false, false, |c| c.send_funds(mi, &v));
+            }
+        }
+    }
+    let _ = pending;
+}
 
 /// Scripted history: a miner proves two sectors once and then never submits a PoSt again; the
 /// sectors stay faulty for the whole `fault_max_age` (42 proving periods) with the cron running,
@@ -670,6 +742,21 @@ pub fn run(cfg: &RunCfg, which: Which) -> Report {
             }
         }
         if c.miners.is_empty() { continue; }
+        // market escrow for providers (miners) and two client accounts, so deals can be published
+        let mut deals: Vec<(u64, usize, i64, Option<u64>, bool)> = vec![]; // (deal id, miner, start, sector, activated)
+        let mut deal_tag: u64 = 0;
+        if !scripted {
+            for mi in 0..c.miners.len() {
+                let (owner, mid) = (c.miners[mi].owner, c.miners[mi].id);
+                record_balances(&c);
+                exec(&mut c, &mut cx, format!("market_add_balance for=miner{} value=50", mi), false, false, |c| c.market_add_balance(&owner, &mid, &fil(50)));
+            }
+            for ci in [3usize, 4] {
+                let a = c.accounts[ci].0;
+                record_balances(&c);
+                exec(&mut c, &mut cx, format!("market_add_balance for=client{} value=500", ci), false, false, |c| c.market_add_balance(&a, &a, &fil(500)));
+            }
+        }
         if scripted {
             long_fault_script(&mut c, &mut cx, &mut pending);
             proven_any = true;
@@ -698,9 +785,11 @@ pub fn run(cfg: &RunCfg, which: Which) -> Report {
             } else {
                 c.w.vm.fault_plan.borrow_mut().rules.clear();
             }
-            let k = r.below(100);
+            let k = r.below(124);
             record_balances(&c);
-            if k < 30 {
+            if k >= 100 {
+                extra_op(&mut c, &mut cx, &mut r, mi, k, &view, &mut deals, &mut deal_tag, &mut pending, &mut proven_any);
+            } else if k < 30 {
                 // advance time: to a boundary of this miner's deadline or a prove-commit window
                 let dl = c.dline_info(mi);
                 let target = match r.below(7) {
